@@ -84,6 +84,8 @@ impl OperationControl for GreedyFixed {
         let mut p = position;
         let mut matches = 0;
         while p <= guard {
+            #[cfg(regexml_verif)]
+            crate::verif::tick(4);
             let mut it = self.operation.matches_iter(matcher, p);
             let matched = it.next().is_some();
             if matched {
@@ -150,6 +152,8 @@ impl Iterator for IntStepIterator {
     type Item = usize;
 
     fn next(&mut self) -> Option<Self::Item> {
+        #[cfg(regexml_verif)]
+        crate::verif::tick(5);
         let has_next = if self.step > 0 {
             self.current <= self.limit
         } else {
